@@ -345,7 +345,18 @@ func Drive(spec *Spec, o DriveOpts) int {
 	if o.ReplayDir != "" {
 		work := filepath.Join(workRoot, "replay")
 		args := append([]string{"shard"}, common...)
-		args = append(args, "-work", work, "-index", "0", "-count", "1", "-replay", o.ReplayDir)
+		args = append(args, "-work", work, "-index", "0", "-count", "1")
+		// a process-level violation (worker died / hung / blocked) keeps the case id, not a case.json:
+		// run the workload again restricted to that one case
+		if b, err := os.ReadFile(filepath.Join(o.ReplayDir, "case.txt")); err == nil && len(strings.TrimSpace(string(b))) > 0 {
+			if _, err := os.Stat(filepath.Join(o.ReplayDir, "case.json")); err != nil {
+				args = append(args, "-only", strings.TrimSpace(string(b)))
+			} else {
+				args = append(args, "-replay", o.ReplayDir)
+			}
+		} else {
+			args = append(args, "-replay", o.ReplayDir)
+		}
 		out := runProc(o.ShardBin, args, baseEnv(o.Root, o.RaceBinary, work), filepath.Join(workRoot, "replay.stderr"), budget, 0, func(e Event) {
 			if e.T == "V" {
 				addV(*e.V)
